@@ -312,7 +312,7 @@ impl TCheck for C01 {
             1 => 1,
             _ => rng.range(2, 80) as usize,
         };
-        let srcs = [SrcKind::Cursor, SrcKind::File, SrcKind::FileRange, SrcKind::Sim, SrcKind::FilePeeked, SrcKind::FileRangeToEnd];
+        let srcs = [SrcKind::Cursor, SrcKind::File, SrcKind::FileRange, SrcKind::Sim, SrcKind::FilePeeked, SrcKind::FileRangeToEnd, SrcKind::FileReplaced];
         let max_len = *rng.pick(&[40usize, 600, 5000, 70000]);
         let mut contents = gen_contents(&mut rng, n, max_len, &srcs, comp);
         let dedup = rng.chance(1, 3);
@@ -343,6 +343,9 @@ impl TCheck for C01 {
                 contents.insert(at, d);
             }
         }
+        if !dedup {
+            crate::c08::share_archive(&mut rng, &mut contents);
+        }
         let shipped_limits = rng.chance(1, 3);
         let mut knobs = vec![
             ("creator_workers", rng.range(1, 15)),
@@ -359,7 +362,7 @@ impl TCheck for C01 {
             knobs.retain(|(k, _)| *k != "creator_workers");
         }
         let basic = work % 4 == 3 && !dedup;
-        let desc = json!({"comp": comp.name(), "contents": contents.iter().map(|c| format!("{}{}{}", c.bytes.len(), match c.hint {Hint::Yes=>"Y",Hint::No=>"N",Hint::Detect=>"D"}, match c.src {SrcKind::Cursor=>"c",SrcKind::File=>"f",SrcKind::FileRange=>"r",SrcKind::Sim=>"s",SrcKind::FilePeeked=>"p",SrcKind::FileRangeToEnd=>"e"})).collect::<Vec<_>>(),
+        let desc = json!({"comp": comp.name(), "contents": contents.iter().map(|c| format!("{}{}{}", c.bytes.len(), match c.hint {Hint::Yes=>"Y",Hint::No=>"N",Hint::Detect=>"D"}, match c.src {SrcKind::Cursor=>"c",SrcKind::File=>"f",SrcKind::FileRange=>"r",SrcKind::Sim=>"s",SrcKind::FilePeeked=>"p",SrcKind::FileRangeToEnd=>"e",SrcKind::SharedArchive=>"a",SrcKind::FileReplaced=>"x"})).collect::<Vec<_>>(),
                           "dedup": dedup, "one_cpu_host_no_worker_knob": one_cpu, "packaging": if basic {"BasicCreator one-file"} else {"content pack file"}, "knobs": knobs.iter().map(|(k,v)| format!("{k}={v}")).collect::<Vec<_>>()});
         if basic {
             // every other BasicCreator work hands extra content packs to finalize(), with ids that
